@@ -258,7 +258,7 @@ func (r *Route) goodInfo() {
 
 	str := MethodsString()
 	for _, method := range r.methods {
-		if strings.Index(","+str, ","+method) == -1 {
+		if strings.Index(","+str+",", ","+method+",") == -1 {
 			goutil.Panicf("invalid method name '%s', must in: %s", method, str)
 		}
 	}
